@@ -1,6 +1,7 @@
 SPECIFICATION TraceSpec
 CONSTANTS
   Replica = {"A", "B", "C"}
+  Remote = {"origin", "backup"}
   NBug = 3
   Author = {"u1", "u2"}
   MaxHop = 1000000
